@@ -27,14 +27,27 @@ pub mod util {
     use crate::*;
     use crate::ispec::*;
     verus! {
+    #[verifier::external_body]
+    pub struct SymbolContext { _p: u8 }
     //@@ITEMS util
     }
 }
 pub mod asm {
     use vstd::prelude::*;
+    use crate::*;
+    use crate::expr::*;
     verus! {
+    broadcast use {vstd::std_specs::hash::group_hash_axioms, crate::axioms::axiom_string_key_model};
     #[verifier::external_body]
     pub struct AstTopLevel { _p: u8 }
+    #[verifier::external_body]
+    pub struct ItemDecls { _p: u8 }
+    /// stand-in for asm::ItemDefs: only the field the function reads directly
+    pub struct ItemDefs { pub ruledefs: DefList<Ruledef> }
+    #[verifier::external_body]
+    pub struct InstructionMatchResolution { _p: u8 }
+    //@@INCLUDE u_matchknown/spec.rs
+    //@@ITEMS asm
     }
 }
 pub mod expr {
